@@ -156,6 +156,15 @@ func genC16(cfg Config, emit Emit) error {
 		}
 		emit("c16r", []string{hexTok([]byte(p)), hexTok([]byte(c))}, "near-literal", true)
 	}
+	// end to end: the rules as the validator applies them to tokens (what the accessors hand to them)
+	nw := 400
+	if cfg.Thorough() {
+		nw = 8000
+	}
+	genWorlds(cfg, nw, genOpts{maxDepth: 4, sessions: true, sessionPct: 15, caveats: true, caveatPct: 20,
+		kinds: []string{"case", "case", "nearmiss", "ability", "resource", "none"}}, func(w *AWorld, class string) {
+		emit("access", []string{"C16", mustJSON(w)}, "end-to-end/"+class, true)
+	})
 	for i := 0; i < nr; i++ {
 		p := mk()
 		var c string
